@@ -226,6 +226,36 @@ def run(ctx):
         if got != want:
             disagree("content-length", v, wire, want, got)
 
+    # ... and the same gate in every context in which the Content-Length is the
+    # framing of the message (the message is not chunked): other framing-related
+    # fields before / after it, HTTP/1.0 (Transfer-Encoding is not honoured there),
+    # a Transfer-Encoding naming no coding.  The verdict must not depend on them.
+    contexts = [
+        (b"1.1", [b"Transfer-Encoding:"], []), (b"1.1", [], [b"Transfer-Encoding:"]),
+        (b"1.1", [b"Transfer-Encoding: ,"], []), (b"1.1", [], [b"Transfer-Encoding: \t, ,"]),
+        (b"1.0", [b"Transfer-Encoding: chunked"], []), (b"1.0", [], [b"Transfer-Encoding: chunked"]),
+        (b"1.0", [], []), (b"1.0", [b"Connection: keep-alive"], []),
+        (b"1.1", [b"Connection: close"], []), (b"1.1", [], [b"Expect: 100-continue"]),
+        (b"1.1", [b"Host: h", b"X: y"], [b"Connection: keep-alive, close"]),
+        (b"1.1", [b"Content-Type: text/plain"], [b"Transfer-Encoding:", b"Connection: close"]),
+    ]
+    ctx_vals = [v for v in vals if len(v) <= 3][:400] + [b"+5", b"-5", b"0x5", b"5_0", b"5,5", b"5 5", b"abc", b"\xb2",
+                                                       b"5.0", b"1e1", b"5", b"0", b"007", b" 12 ", b"\t3", b""]
+    ok_hdr2 = spec("spec_header_field", [b"Content-Length:" + v for v in ctx_vals])
+    ok_cl2 = spec("spec_content_length", [v.strip(b" \t") for v in ctx_vals])
+    n_ctx = 0
+    for ver, before, after in contexts:
+        for v, a, b in zip(ctx_vals, ok_hdr2, ok_cl2):
+            evaluations += 1
+            n_ctx += 1
+            want = "accept" if (a and b) else "reject"
+            wire = (b"POST / HTTP/" + ver + b"\r\n" + b"".join(h + b"\r\n" for h in before)
+                    + b"Content-Length:" + v + b"\r\n" + b"".join(h + b"\r\n" for h in after) + b"\r\n")
+            got = impl_head(wire)
+            dist[got if got in dist else "other"] += 1
+            if got != want:
+                disagree("content-length-in-context", v, wire, want, got)
+
     # header line
     hls = [h for h in strings_for(GATE_ALPHABETS["gate_header_field"], rng, ctx.tier)
            if h and b"\r\n" not in h]
